@@ -124,12 +124,17 @@ def run(repo, rep):
     from . import c13
 
     rep.run_borrowed(c13, {"C13-b": "C18-b"}, repo, only_sites=("architecture_features",))
+    rep.clause("C18-h", "the configuration is parsed from the files of this compilation: no process-wide store in architecture_features keeps a parsed configuration across calls [rule shared with C14-a]")
+    from . import c14 as _c14
+
+    rep.run_borrowed(_c14, {"C14-a": "C18-h"}, repo, only_sites=("architecture_features",))
     rule_literal_options(repo, rep, vela)
     rule_docs(repo, rep, vela, af)
     rule_ini(repo, rep, af)
     rule_round4(repo, rep, vela, af)
     rule_round5(repo, rep, vela, af)
     rule_values_from_file(repo, rep, af)
+    rule_reads_go_through_read_config(repo, rep, af)
 
 
 # ------------------------------------------------------------------ a
@@ -762,3 +767,26 @@ def rule_values_from_file(repo, rep, af):
     if n < 3:
         raise AnalysisError(f"only {n} conversions of values read from the configuration file found")
     rep.floor("C18-g", 4)
+
+
+def rule_reads_go_through_read_config(repo, rep, af):
+    """(i) inheritance is implemented in _read_config only. Every option value that _get_vela_config (and the helpers it calls) takes from the
+    parsed file is obtained through it: the ConfigParser object itself is used for has_section / has_option / read, never for get* or
+    subscripting, which look at the named section alone."""
+    rep.clause("C18-i", "option values are read from the parsed file through _read_config only (ConfigParser's own getters know nothing of `inherit`)")
+    n = 0
+    for q, fn in af.functions.items():
+        if not q.startswith("ArchitectureFeatures."):
+            continue
+        for x in ast.walk(fn):
+            if isinstance(x, ast.Call) and isinstance(x.func, ast.Attribute) and str(norm(x.func.value)) == "self.vela_config":
+                n += 1
+                ok = x.func.attr in ("has_section", "has_option", "read", "sections") or q == "ArchitectureFeatures._read_config"
+                rep.check(ok, "C18-i", f"ethosu/vela/architecture_features.py:{q}", f"`{str(norm(x))[:70]}`",
+                          f"`{x.func.attr}` reads the named section only: a value that the section inherits from its parent is not seen and the option silently keeps its default")
+            if isinstance(x, ast.Subscript) and str(norm(x.value)) == "self.vela_config" and q != "ArchitectureFeatures._read_config":
+                n += 1
+                rep.bad("C18-i", f"ethosu/vela/architecture_features.py:{q}", f"`{str(norm(x))[:70]}`", "direct access to a section bypasses `inherit`")
+    if n < 4:
+        raise AnalysisError(f"uses of self.vela_config: {n}")
+    rep.floor("C18-i", 4)
